@@ -126,11 +126,16 @@ claim("C10", "proof",
       "code's tests), the soup of EVERY consistent tree - leaves of any mix of levels, pruned cells of any size - is a disjoint "
       "union of directed cycles, and prune + collapse + walk + weld returns closed polylines for every lattice sign function "
       "with a clear region boundary, every depth and every verdict of the numerical tests; necessity of the collapse tests and "
-      "of the clear boundary by kernel-checked counter-examples.  Tie: for 60 (thorough 6000) random shapes the harness dumps "
+      "of the clear boundary by kernel-checked counter-examples.  Adaptive contours BOUND the slice too (Render/QuadTreeSep.v): "
+      "the segments of the soup of every consistent tree correspond one to one to the minimal edges of the leaf subdivision "
+      "(a whole side of the smaller of two facing leaves) whose end points differ in sign - soundness, completeness, "
+      "injectivity, no duplicates - both leaves are ambiguous, the inside end point lies on the LEFT of the segment, and a "
+      "path along minimal edges crosses an odd number of segments iff its ends differ in sign.  "
+      "Tie: for 60 (thorough 6000) random shapes the harness dumps "
       "the implementation's quadtree before and after collapsing (max_err from 1e-8 to 1e9) with the raw directed segments of "
       "its walk; the extracted collect must rebuild the collapsed tree exactly, the extracted walk must emit exactly the "
       "implementation's segments, and the extracted checkers decide the theorem's hypotheses on those trees.  Oracle (not "
-      "proved: that adaptive contours wind around the solid; vertex positions): Contours::render of "
+      "proved: vertex positions): Contours::render of "
       "random 2D solids and slices of 3D solids: contours closed, polygon winding number exactly +1 inside (the proved "
       "orientation) and 0 outside, vertices in the region and within 2 feature sizes of the zero set.",
       "Trusted: Coq kernel (no axioms for the combinatorial theorems; the standard real-number axioms for the distance bound); "
